@@ -20,6 +20,9 @@ Check(e) ==
       [] e.kind = "derived" -> DerivedContract(e)
       [] e.kind = "analyses" -> AnalysesContract(e)
       [] e.kind = "subst" -> SubstContract(e)
+      [] e.kind = "rewrite" -> RewriteContract(e)
+      [] e.kind = "cnf" -> CnfContract(e)
+      [] e.kind = "ack" -> AckContract(e)
       [] OTHER -> Verdict(<<"unknown_event_kind">>, <<>>, -1)
 
 Report(e) ==
